@@ -3,6 +3,7 @@
 (* (vflow/*.go) running on their real queues and receive-buffer pool, with     *)
 (* every worker held at the hooks of its loop and released by a seeded         *)
 (* scheduler, is validated against the pipeline's rules (Pipeline.tla):        *)
+(*   Recv     the receive loop's buffer is not one a datagram in flight lives in *)
 (*   Deq      takes the head of the datagram queue (FIFO, nothing invented)    *)
 (*   Mar      the encoded message is the worker's OWN datagram's (PublishedIs- *)
 (*            Own at the moment of encoding)                                   *)
@@ -33,7 +34,9 @@ W(k) == IF k \in DOMAIN wk THEN wk[k] ELSE Idle
 F(r, name, dflt) == IF name \in DOMAIN r THEN r[name] ELSE dflt
 
 TReset == Is("Reset") /\ q' = <<>> /\ wk' = [w \in {} |-> Idle] /\ mq' = <<>> /\ consumed' = <<>> /\ decs' = 0 /\ expect' = {}
-TRecv == /\ Is("Recv") /\ q' = Append(q, [d |-> F(Ev, "d", 0), b |-> Ev.b])
+Held == {q[i].b : i \in 1..Len(q)} \cup {wk[w].b : w \in {x \in DOMAIN wk : wk[x].gate \in {"Deq", "Dec"}}}
+(* the buffer the receive loop got from the pool is not one a datagram in flight still lives in *)
+TRecv == /\ Is("Recv") /\ Ev.b \notin Held /\ q' = Append(q, [d |-> F(Ev, "d", 0), b |-> Ev.b])
          /\ UNCHANGED <<wk, mq, consumed, decs, expect>>
 TDeq == /\ Is("Deq") /\ q # <<>> /\ Head(q).d = F(Ev, "d", 0) /\ Head(q).b = Ev.b
         /\ W(Ev.w).gate \in {"Top", "none"}
@@ -54,7 +57,6 @@ TTop == /\ Is("Top")
 TConsume == /\ Is("Consume") /\ mq # <<>> /\ Ev.p = Head(mq)
             /\ mq' = Tail(mq) /\ consumed' = Append(consumed, Ev.p)
             /\ UNCHANGED <<q, wk, decs, expect>>
-Held == {q[i].b : i \in 1..Len(q)} \cup {wk[w].b : w \in {x \in DOMAIN wk : wk[x].gate \in {"Deq", "Dec"}}}
 TProbe == /\ Is("Probe") /\ {Ev.got[i] : i \in 1..Len(Ev.got)} \cap Held = {}
           /\ UNCHANGED <<q, wk, mq, consumed, decs, expect>>
 (* mirroring: a copy handed to the mirror workers is a received datagram, in a buffer of its own *)
